@@ -300,7 +300,6 @@ where
             i >>= 1;
             depth -= 1;
             self.nodes.insert((depth, i), h);
-            self.cached_leaves_indices[index] = 1;
             if depth == 0 {
                 break;
             }
